@@ -31,6 +31,8 @@ func extraChecks(r *Run, prop string) {
 		extraC03(r)
 	case "C04":
 		extraC04(r)
+	case "C05":
+		closeSendRacesBlockedSend(r)
 	}
 }
 
